@@ -192,8 +192,11 @@ def r15_2(ctx: Ctx):
     ctx.ob("R15.2", gb, tup[0] if tup else "gathered pair", ok, "each record contributes its two atom numbers (ai, aj)",
            node=tup[0] if tup else gb.node)
     lb = ctx.func("ItpLineBonds._init_fields")
-    st = {norm(s.targets[0]): norm(s.value) for s in walk_no_nested(lb.node) if isinstance(s, ast.Assign)}
-    okf = "int(fields[0])" in st.get("self._fields['ai']", "") and "int(fields[1])" in st.get("self._fields['aj']", "")
+    from ..pat import find as pfind
+    a_i = pfind(lb.node, "self._fields['ai'] = int(V_f[0])")
+    a_j = pfind(lb.node, "self._fields['aj'] = int(V_f[1])")
+    okf = bool(a_i) and bool(a_j) and a_i[0][1]["V_f"] == a_j[0][1]["V_f"] and \
+        bool(pfind(lb.node, "%s = self.content.split()" % a_i[0][1]["V_f"]))
     ctx.ob("R15.2", lb, "ai/aj from the first two columns", okf, "ai, aj are the first two tokens of the line", node=lb.node)
 
 
